@@ -101,7 +101,8 @@ func runC33(c *Ctx) {
 	// always asks CoversAt(snapshot, …). "VisibleAt was checked just above" is not a substitute:
 	// VisibleAt is about the OLDEST key of a fragmented tombstone, Covers about the NEWEST.
 	c.Who("C33.T1", CallTo("keyspan.(Span).Covers"),
-		"the snapshot-unaware Span.Covers is used only by the compaction iterator", "compact.(*Iter).tombstoneCovers")
+		"the snapshot-unaware Span.Covers is not used by package pebble's read path (its one user is the compaction iterator)",
+		"compact.(*Iter).tombstoneCovers", pkgAlias["compact"]+".*", pkgAlias["keyspan"]+".*")
 
 	// ---- L1 ----
 	storeKV := StoreTo(iterKV)
